@@ -389,6 +389,7 @@ pub fn gen_script(t: &mut Tape, p: &Profile) -> Script {
         embedder_changes_apps_at_wait: None,
         content_type_mask: 0,
         mono_back: None,
+        switch_wakers: false,
     };
     if p.junk_url.0 > 0 && t.chance(p.junk_url.0, p.junk_url.1) {
         s.service_url = gen_junk_url(t);
